@@ -1,6 +1,8 @@
 import Sekai.Model.Stake
 import Sekai.Gen.App
 import Sekai.Model.App
+import Sekai.Gen.Keys
+import SekaiProofs.Lemmas.Keys
 /-! # C05 — Validator updates keep consensus and application validator sets equal
 
 `Sync` is the inductive invariant relating statuses, the removing / reactivating queues and the consensus set.
@@ -495,5 +497,13 @@ theorem block_order_as_modelled :
     Sekai.App.inOrder Sekai.Gen.App.beginOrder ["slashingtypes.ModuleName", "evidencetypes.ModuleName", "stakingtypes.ModuleName"] = true ∧
     Sekai.App.inOrder Sekai.Gen.App.endOrder ["upgradetypes.ModuleName", "slashingtypes.ModuleName", "recoverytypes.ModuleName", "govtypes.ModuleName", "stakingtypes.ModuleName"] = true := by
   decide +kernel
+
+/-! ### Key spaces of the stores this model keeps in separate maps (table `Gen.Keys`)
+
+The model keeps each record kind of a module in a field of its own; the module keeps them in ONE store under byte prefixes.
+No prefix extends another (checked on the regenerated table), so by `Sekai.Keys.keys_of_different_kinds_differ` a key of one
+kind is never a key of another kind. -/
+
+theorem staking_key_spaces_disjoint : Sekai.Keys.disjoint Sekai.Gen.Keys.stores "staking" = true := by decide +kernel
 
 end Sekai.Props.C05
